@@ -208,6 +208,11 @@ def _candidates(spec, opts, feats):
             if not incoming and not ('multi_delete_hinted' in opts.avoid and
                                      spec.get('_deleted_models', 0) >= 1):
                 cands.append(('DeleteModel', app, name, None))
+    if 'RenameAppLabel' in opts.kinds:
+        free = [l for l in S.APP_LABELS if l not in spec['apps']]
+        for app in sorted(spec['apps']):
+            if free and spec['apps'][app]['models']:
+                cands.append(('RenameAppLabel', app, None, None))
     if 'DeleteApplication' in opts.kinds:
         for app in sorted(spec['apps']):
             if not spec['apps'][app]['models']:
@@ -394,6 +399,10 @@ def draw_mutation(draw, spec, cand, feats, opts, counter):
         return {'kind': 'DeleteModel', 'app': app, 'model': name}
     if kind == 'DeleteApplication':
         return {'kind': 'DeleteApplication', 'app': app}
+    if kind == 'RenameAppLabel':
+        free = [l for l in S.APP_LABELS if l not in spec['apps']]
+        new = draw(st.sampled_from(free))
+        return {'kind': 'RenameAppLabel', 'app': app, 'old': app, 'new': new, 'legacy': app}
     raise ValueError(kind)
 
 
